@@ -160,7 +160,8 @@ class Thermal(_Simu):
 
         u = results["thermal"]
 
-        if self.algo == AlgoType.parabolic and "thermalDot" in results:
+        if "thermalDot" in results:
+            # stored with the iteration: restored whatever the time scheme has become since
             v = results["thermalDot"]
         else:
             v = np.zeros_like(u)
